@@ -11,7 +11,7 @@ from common import Failure, Result
 RUNNERS = {}
 IMPORT_ERRORS = {}
 for kind, mod in (('K-clo', 'corr_clo'), ('K-buf', 'corr_buf'), ('K-args', 'corr_args'),
-                  ('K-view', 'corr_view'), ('K-edit', 'corr_edit')):
+                  ('K-view', 'corr_view'), ('K-edit', 'corr_edit'), ('K-regex', 'corr_regex')):
     try:
         RUNNERS[kind] = importlib.import_module(mod).run
     except ImportError:
